@@ -71,3 +71,28 @@ Fixpoint number_from (i : Z) (ks : list elt_kind) : list elt :=
   | [] => []
   | k :: t => (k, i) :: number_from (i + 1) t
   end.
+
+(* ---- the escape branch of the same loop (format.cc:160-175).  parse_elements walks the format
+   with `for (const char * p = fmt.c_str(); *p; p++)`; on a backslash it steps to the next
+   character, translates it, and `continue`s, which steps once more.  When the backslash is the
+   last character of the format the first step lands on the terminating NUL and the second one
+   leaves the string: the loop condition then reads past the end of the buffer.  `guard` says
+   whether the branch tests `if (! *p) throw` after its own step
+   (Gen/SafetyGuards.src_format_backslash_guard).  Every other character is one step of the
+   loop here (the `%` directives test `*p` before every step of their own). *)
+Inductive scan_result : Type :=
+| ScanDone            (* the loop ended on the terminator *)
+| ScanError           (* format_error: "Backslash at end of format string" *)
+| ScanOverrun.        (* the cursor left the string *)
+
+Fixpoint scan_format (guard : bool) (s : list Z) : scan_result :=
+  match s with
+  | [] => ScanDone
+  | c :: rest =>
+      if c =? 92 then
+        match rest with
+        | [] => if guard then ScanError else ScanOverrun
+        | _ :: rest' => scan_format guard rest'
+        end
+      else scan_format guard rest
+  end.
